@@ -33,3 +33,23 @@ package encoding
 //@     invariant enc != nil && timesN == len(times) && 0 < i && i <= timesN - 2 && len(enc.deltas) == timesN
 //@     invariant p10(enc.scale) && enc.scale >= 1
 //@     invariant forall k int :: i < k && k < timesN ==> dv(enc.scale, enc.deltas[k])
+
+// ---- integer column encoder: scheme selection (int.go)
+// simple8b can hold values up to 2^60-1 only: the scheme may be chosen only if EVERY zig-zag delta (the first
+// one included) fits, otherwise an accepted column cannot be encoded. The constant-delta scheme stores one
+// delta: it may be chosen only if all deltas are equal.
+//@ func ZigZagEncode
+//@   assigns nothing
+//@ func (*Integer).reset
+//@   requires enc != nil
+//@   ensures len(enc.zigZagDeltas) == 0 && enc.isConstDelta && enc.isSimple8b
+//@   assigns enc.zigZagDeltas, enc.isConstDelta, enc.isSimple8b
+//@ func (*Integer).init
+//@   requires enc != nil
+//@   ensures [len] len(arr) >= 3 ==> len(enc.zigZagDeltas) == len(arr)
+//@   ensures [simple8b_fits] enc.isSimple8b ==> (forall k int :: 1 <= k && k < len(enc.zigZagDeltas) ==> enc.zigZagDeltas[k] <= 1152921504606846975)
+//@   ensures [const_delta] enc.isConstDelta ==> (forall k int :: 2 <= k && k < len(enc.zigZagDeltas) ==> enc.zigZagDeltas[k] == enc.zigZagDeltas[k-1])
+//@   loop 1
+//@     invariant enc != nil && 2 <= i && i <= len(arr) && len(enc.zigZagDeltas) == i
+//@     invariant enc.isSimple8b ==> (forall k int :: 1 <= k && k < i ==> enc.zigZagDeltas[k] <= 1152921504606846975)
+//@     invariant enc.isConstDelta ==> (forall k int :: 2 <= k && k < i ==> enc.zigZagDeltas[k] == enc.zigZagDeltas[k-1])
